@@ -62,13 +62,16 @@ pub struct FbFut<Req, Res, E> { pub req: Ghost<Req>, pub p: core::marker::Phanto
 impl<Req, Res, E> ServiceFn<Req, Res, E> {
     #[verifier::external_body] pub fn vx_clone(&self) -> (r: Self) ensures r == *self { unimplemented!() }
     #[verifier::external_body]
-    pub fn vx_call(&self, req: Req) -> (f: FbFut<Req, Res, E>) ensures f.req@ == req { unimplemented!() }
+    /// invoking the backup service (creating its future) is what "the strategy was triggered" means: counted here, not at the await
+    pub fn vx_call(&self, req: Req, Tracked(tr): Tracked<&mut Trace<Req, Res, E>>) -> (f: FbFut<Req, Res, E>)
+        ensures f.req@ == req, *final(tr) == (Trace { fb_calls: old(tr).fb_calls + 1, fb_req: Some(req), ..*old(tr) }),
+    { unimplemented!() }
 }
 impl<Req, Res, E> FbFut<Req, Res, E> {
     #[verifier::external_body]
     pub fn vx_await(self, Tracked(tr): Tracked<&mut Trace<Req, Res, E>>) -> (r: Result<Res, E>)
         requires old(tr).unguarded == 0,
-        ensures *final(tr) == (Trace { fb_calls: old(tr).fb_calls + 1, fb_req: Some(self.req@), fb_done: Some(r), ..*old(tr) }),
+        ensures *final(tr) == (Trace { fb_done: Some(r), ..*old(tr) }),
     { unimplemented!() }
 }
 
